@@ -36,6 +36,8 @@ def scenarios(ctx):
                         steps.append({"op": "adv", "d": 1})
                         rid += 1
                         steps += [{"op": "start", "r": rid}, {"op": "finish", "r": rid, "code": 200}]
+                        if rng.random() < 0.3:
+                            steps[-2]["precancel"] = True     # abandoned by its client before it arrived: shielded all the same
                     cfg = {"tick_ms": tick, "fallback": F, "recovery": R, "check": 1, "ast": B.NETERR, "expr": B.render(B.NETERR)}
                     out.append({"id": "window-%d" % i, "cfg": cfg, "steps": steps})
                     i += 1
